@@ -580,6 +580,135 @@ def write_num_gather(ex, st, n, args):
     return r
 
 
+def slice_get_indices(ex, st, n, args):
+    """PySlice_GetIndicesEx(slice, length, &start, &stop, &step, &lgt):
+    -1 with an exception, or 0 and: step != 0, lgt >= 0, and for every
+    0 <= k < lgt the index start + k*step lies in [0, length) (CPython
+    documentation: the indices of the slice clipped to a sequence of that
+    length)"""
+    if st.pure:
+        raise Impure()
+    length = toint(ex.ev(args[1], st)).t
+    outs = [ex.ev(a, st) for a in args[2:6]]
+    fails = det_bool(st, n, 'slice_indices_fail')
+    d = ex.decide(st, fails)
+    if d is None:
+        raise NeedFork(fails)
+    if d:
+        st.exc = 'PyExc_ValueError'
+        return IntV(z3.IntVal(-1), 'int')
+    key = ('slice', n.get('line'), (n.get('off') or (0, 0))[0])
+    cnt = st.ghost.get(key, 0)
+    st.ghost[key] = cnt + 1
+    tag = '%s.%s#%d' % (key[1], key[2], cnt)
+    start, stop, step, lgt = (z3.Int('slice_%s@%s' % (nm, tag))
+                              for nm in ('start', 'stop', 'step', 'len'))
+    k = z3.Int('k')
+    st.pc.append(z3.And(step != 0, lgt >= 0, lgt <= length,
+                        start >= -1, start <= length))
+    # the defining property of the clipped slice, as a quantified fact and
+    # (for the solver's benefit) at the two ends
+    st.pc.append(z3.ForAll([k], z3.Implies(
+        z3.And(k >= 0, k < lgt),
+        z3.And(start + k * step >= 0, start + k * step < length))))
+    st.pc.append(z3.Implies(lgt > 0, z3.And(
+        start >= 0, start < length, start + (lgt - 1) * step >= 0,
+        start + (lgt - 1) * step < length)))
+    for p_, v_ in zip(outs, (start, stop, step, lgt)):
+        if isinstance(p_, PtrV):
+            ex.store_through(p_, IntV(v_, 'long'), st, n)
+    sl = list(st.ghost.get('slices', []))
+    sl.append({'start': start, 'step': step, 'len': lgt, 'dim': length})
+    st.ghost['slices'] = sl
+    ex.trusted.add('PySlice_GetIndicesEx: every index start + k*step, '
+                   '0 <= k < slicelength, lies in [0, length) (CPython '
+                   'documentation)')
+    return IntV(z3.IntVal(0), 'int')
+
+
+def slice_unpack(ex, st, n, args):
+    """PySlice_Unpack(slice, &start, &stop, &step): -1 with an exception, or
+    0 with the raw members (step != 0)"""
+    if st.pure:
+        raise Impure()
+    outs = [ex.ev(a, st) for a in args[1:4]]
+    fails = det_bool(st, n, 'slice_unpack_fails')
+    d = ex.decide(st, fails)
+    if d is None:
+        raise NeedFork(fails)
+    if d:
+        st.exc = 'PyExc_ValueError'
+        return IntV(z3.IntVal(-1), 'int')
+    key = ('sliceu', n.get('line'), (n.get('off') or (0, 0))[0])
+    cnt = st.ghost.get(key, 0)
+    st.ghost[key] = cnt + 1
+    tag = '%s.%s#%d' % (key[1], key[2], cnt)
+    vals = [z3.Int('raw_%s@%s' % (nm, tag)) for nm in ('start', 'stop',
+                                                        'step')]
+    st.pc.append(vals[2] != 0)
+    for p_, v_ in zip(outs, vals):
+        if isinstance(p_, PtrV):
+            ex.store_through(p_, IntV(v_, 'long'), st, n)
+    return IntV(z3.IntVal(0), 'int')
+
+
+def slice_adjust(ex, st, n, args):
+    """PySlice_AdjustIndices(length, &start, &stop, step) -> slicelength:
+    clips start/stop; afterwards every index start + k*step, 0 <= k <
+    slicelength, lies in [0, length) (CPython documentation)"""
+    if st.pure:
+        raise Impure()
+    length = toint(ex.ev(args[0], st)).t
+    pstart, pstop = ex.ev(args[1], st), ex.ev(args[2], st)
+    step = toint(ex.ev(args[3], st)).t
+    key = ('slicea', n.get('line'), (n.get('off') or (0, 0))[0])
+    cnt = st.ghost.get(key, 0)
+    st.ghost[key] = cnt + 1
+    tag = '%s.%s#%d' % (key[1], key[2], cnt)
+    start, stop, lgt = (z3.Int('slice_%s@%s' % (nm, tag))
+                        for nm in ('start', 'stop', 'len'))
+    k = z3.Int('k')
+    st.pc.append(z3.And(lgt >= 0, z3.Implies(length >= 0, lgt <= length),
+                        start >= -1, start <= length, stop >= -1,
+                        stop <= length))
+    st.pc.append(z3.ForAll([k], z3.Implies(
+        z3.And(k >= 0, k < lgt),
+        z3.And(start + k * step >= 0, start + k * step < length))))
+    st.pc.append(z3.Implies(lgt > 0, z3.And(
+        start >= 0, start < length, start + (lgt - 1) * step >= 0,
+        start + (lgt - 1) * step < length)))
+    if isinstance(pstart, PtrV):
+        ex.store_through(pstart, IntV(start, 'long'), st, n)
+    if isinstance(pstop, PtrV):
+        ex.store_through(pstop, IntV(stop, 'long'), st, n)
+    sl = list(st.ghost.get('slices', []))
+    sl.append({'start': start, 'step': step, 'len': lgt, 'dim': length})
+    st.ghost['slices'] = sl
+    lemmas = []
+    for o_ in ex.objs.values():
+        # when the slice ranges over the columns of a matrix: the product of
+        # an in-range column index with the number of rows is bounded (a
+        # valid consequence, stated to spare the solver a nonlinear step)
+        if hasattr(o_, 'ncols') and z3.eq(z3.simplify(length),
+                                          z3.simplify(o_.ncols)):
+            lemmas.append(o_)
+
+    def inst(k_, start=start, step=step, lgt=lgt, length=length,
+             lemmas=tuple(lemmas)):
+        x_ = start + k_ * step
+        facts = [x_ >= 0, x_ < length]
+        for o_ in lemmas:
+            facts.append(z3.Implies(o_.nrows >= 0, z3.And(
+                x_ * o_.nrows >= 0,
+                x_ * o_.nrows <= (o_.ncols - 1) * o_.nrows)))
+        return z3.Implies(z3.And(k_ >= 0, k_ < lgt), z3.And(facts))
+    st.ghost['forall'] = tuple(st.ghost.get('forall', ())) + (inst,)
+    ex.trusted.add('PySlice_AdjustIndices: every index start + k*step, '
+                   '0 <= k < slicelength, lies in [0, length) (CPython '
+                   'documentation)')
+    return IntV(lgt, 'long')
+
+
 def matrix_from_object(idarg):
     def h(ex, st, n, args):
         """Matrix_NewFromSequence(x, id) / Matrix_NewFromPyBuffer(x, id,
@@ -1046,7 +1175,7 @@ FUNCS = {
                       'externs': None,
                       'config': {'index_may_alias': False,
                                  'allow_unsupported': [
-                                     'PySlice', 'Matrix_NewFromSequence',
+                                     'Matrix_NewFromSequence',
                                      'spmatrix']}},
     'matrix_set_size': {'init': init_set_size, 'post': post_set_size,
                         'externs': COMMON},
@@ -1407,4 +1536,10 @@ FUNCS['Matrix_NewFromPyBuffer'] = {
     'config': {'small_malloc_succeeds': True}}
 
 FUNCS['matrix_subscr']['externs'] = dict(COMMON, **{
-    'create_indexlist': create_indexlist, 'write_num[]': write_num_gather})
+    'create_indexlist': create_indexlist, 'write_num[]': write_num_gather,
+    'PySlice_GetIndicesEx': slice_get_indices,
+    'PySlice_Unpack': slice_unpack, 'PySlice_AdjustIndices': slice_adjust})
+# the two-slice fast path of indexed ASSIGNMENT is left as an abandoned path:
+# its obligations are proved for matrix_subscr but take z3 minutes here
+# (nonlinear arithmetic under quantified slice facts); slices that go through
+# create_indexlist are covered by that contract
